@@ -615,6 +615,7 @@ def run(ctx):
     # O: overlapping loads, last (the line-level scheduler slows everything that runs after it is installed)
     from pv.mon import sched
     ctx.stratum('O', exhaustive=False)
+    ctx.reserve(0.9)          # the first-use schedules (fresh interpreters) keep the last tenth
     try:
         for i in range(OVERLAPS[ctx.tier]):
             if ctx.expired():
@@ -624,6 +625,7 @@ def run(ctx):
                                           rseed='%s.%d.%d' % (ctx.tier, ctx.shard, i)))
     finally:
         sched.uninstall()
+    ctx.release()
     run_first_use(ctx)
     for k, v in contracts.EVALS.items():
         ctx.count('contract_evals.' + k, v)
